@@ -22,6 +22,9 @@ type modLoc struct {
 	arr0  string // contents: array id in the entry state
 	item  string // source text
 	expr  *SExpr
+	off0  string     // nested: offset and length of the outer slice in the entry state
+	len0  string
+	elemT types.Type // nested: element type of the outer slice (itself a slice type)
 }
 
 // parseModItem parses one modifies item to an expression.
@@ -76,7 +79,10 @@ func (g *Gen) declaredLocs(env *Env, sp *FuncSpec) []modLoc {
 				out = append(out, modLoc{kind: "contents", arr0: s.Arr, item: item, expr: e.Args[0]})
 			case "object":
 				p := g.eval(env, e.Args[0])
-				out = append(out, modLoc{kind: "object", addr: p.S, item: item, expr: e})
+				out = append(out, modLoc{kind: "object", addr: p.S, item: item, expr: e, elemT: deref(p.T)})
+			case "nested":
+				s := g.eval(env, e.Args[0])
+				out = append(out, modLoc{kind: "nested", arr0: s.Arr, off0: s.Off, len0: s.Len, elemT: elemTypeOf(s.T), item: item, expr: e.Args[0]})
 			case "all":
 				// all(T.f): field f of every object of struct type T (used with an explicit frame postcondition)
 				sel := e.Args[0]
@@ -223,6 +229,25 @@ func (g *Gen) allowedArr(st *State, arr string) string {
 				alts = append(alts, eq(arr, cur.Arr))
 			}()
 		}
+		if l.kind == "object" && l.elemT != nil {
+			// an array-typed field of a declared object
+			if so := structOf(l.elemT); so != nil {
+				for i := 0; i < so.NumFields(); i++ {
+					if _, isArr := so.Field(i).Type().Underlying().(*types.Array); isArr {
+						alts = append(alts, eq(arr, g.arrOf(l.elemT, so.Field(i), l.addr)))
+					}
+				}
+			}
+		}
+		if l.kind == "nested" {
+			// arr is the backing array of one of the slices stored in the outer slice (entry state or now)
+			for _, hs := range []*State{g.entry, st} {
+				m := g.memSym(hs, l.elemT, "#arr", KInt)
+				g.n++
+				k := fmt.Sprintf("nk!%d", g.n)
+				alts = append(alts, fmt.Sprintf("(exists ((%s Int)) (and (<= 0 %s) (< %s %s) (= %s (select (select %s %s) (+ %s %s)))))", k, k, k, l.len0, arr, m, l.arr0, l.off0, k))
+			}
+		}
 	}
 	return or(alts...)
 }
@@ -352,6 +377,14 @@ func (g *Gen) frameCheckCall(st *State, pre *State, c *ssa.Call, sp *FuncSpec, e
 				}
 			}
 			goal = or(alts...)
+		case "nested":
+			// every array the callee may grow in place (the backing arrays of the inner slices, as they are
+			// before the call) must be one the caller may write
+			g.n++
+			k := fmt.Sprintf("fk!%d", g.n)
+			m := g.memSym(pre, l.elemT, "#arr", KInt)
+			inner := fmt.Sprintf("(select (select %s %s) (+ %s %s))", m, l.arr0, l.off0, k)
+			goal = fmt.Sprintf("(forall ((%s Int)) (! (=> (and (<= 0 %s) (< %s %s)) %s) :pattern (%s)))", k, k, k, l.len0, g.allowedArr(st, inner), inner)
 		}
 		g.oblige("frame", fmt.Sprintf("call %s modifies %s", callee, l.item), c.Pos(), st.reach, goal)
 	}
